@@ -248,7 +248,17 @@ pub(crate) fn wrap_single_line_slow_path<'a>(
     for words in wrapped_words {
         let last_word = match words.last() {
             None => {
-                lines.push(Cow::from(""));
+                // An empty paragraph still carries its indentation.
+                let indent = if lines.is_empty() {
+                    options.initial_indent
+                } else {
+                    options.subsequent_indent
+                };
+                if indent.is_empty() {
+                    lines.push(Cow::from(""));
+                } else {
+                    lines.push(Cow::Owned(indent.to_owned()));
+                }
                 continue;
             }
             Some(word) => word,
